@@ -24,7 +24,7 @@ pub fn project_verdict(files: &[String]) -> Result<(bool, Vec<String>), (String,
     crate::panicx::catch(|| {
         let mut p = FileBackedProject::new();
         for (i, t) in files.iter().enumerate() {
-            p.change_text_document(&FileId::from_string(&format!("f{}.st", i)), t.clone());
+            p.change_text_document(&FileId::from_string(&crate::drive::set_file_name(i)), t.clone());
         }
         match p.semantic() {
             Ok(()) => (true, vec![]),
@@ -314,7 +314,7 @@ fn check_tape(tape: &[u8], gates: &Gates, stats: &mut Stats, counting: bool, cli
         let dir = Scratch::new("c03");
         let mut paths = vec![];
         for (i, tx) in files.iter().enumerate() {
-            paths.push(dir.write(&format!("f{}.st", i), tx.as_bytes()).to_string_lossy().to_string());
+            paths.push(dir.write(&crate::drive::set_file_name(i), tx.as_bytes()).to_string_lossy().to_string());
         }
         for rep in 0..3 {
             let mut args = vec!["check".to_string()];
